@@ -273,8 +273,8 @@ func c38gOps(thorough bool) []vsched.Op {
 		c38gOp("SetEDNS0", "SetEDNS0 twice on one header", func(p c38gPkg) string { return p.set(sets[2], sets[0], sets[3]) }),
 		c38gOp("SetEDNS0+Message", "SetEDNS0+Pack/Unpack("+sets[0].String()+",3 options)", func(p c38gPkg) string { return p.message(sets[0], 2) }),
 		c38gOp("SetEDNS0+Message", "SetEDNS0+Pack/Unpack("+sets[2].String()+",no option)", func(p c38gPkg) string { return p.message(sets[2], 0) }),
-		c38gOp("SetEDNS0+Builder/Parser", "SetEDNS0+Builder/Parser("+sets[1].String()+",3 options,compress)", func(p c38gPkg) string { return p.builder(sets[1], 2, true) }),
-		c38gOp("SetEDNS0+Builder/Parser", "SetEDNS0+Builder/Parser("+sets[4].String()+",1 empty option)", func(p c38gPkg) string { return p.builder(sets[4], 1, false) }),
+		c38gOp("SetEDNS0+Builder+Parser", "SetEDNS0+Builder/Parser("+sets[1].String()+",3 options,compress)", func(p c38gPkg) string { return p.builder(sets[1], 2, true) }),
+		c38gOp("SetEDNS0+Builder+Parser", "SetEDNS0+Builder/Parser("+sets[4].String()+",1 empty option)", func(p c38gPkg) string { return p.builder(sets[4], 1, false) }),
 		c38gOp("OPT.Unpack", "Unpack+Parser(OPT of EDNS version 1)", func(p c38gPkg) string { return p.unpackOPT(v1wire) + " | " + p.parseOPT(v1wire) }),
 	)
 	if thorough {
@@ -294,7 +294,7 @@ func TestVerif_C38_globals(t *testing.T) {
 	vx.Run(t, "C38", func(c *vx.Ctx) {
 		bounds := vx.Pick(c, []int{2}, []int{-1})
 		c.Rule("concurrent part: for every unordered pair of calls from a small alphabet (SetEDNS0 on a clean or dirty ResourceHeader followed by ExtendedRCode(rcode&0xF) and DNSSECAllowed, for five (payload size, extended RCode, DO) triples with distinct sizes, RCodes on both sides of the 4-bit split and both DO values; three SetEDNS0 calls on one header; the same header inside a message through Message.Pack/Unpack and through Builder/Parser (AdditionalHeader + OPTResource) with 0, 1 and 3 options; Unpack and Parser on an OPT record of EDNS version 1) two threads run one call each (thorough: twice each, four more calls) on their own fresh header / Message / Builder / Parser on the instrumented dns/dnsmessage source starting from the package's initial state; every schedule (quick: at most 2 preemptions; thorough: unbounded) at the scheduling points — before each statement mentioning a written package-level variable " + fmt.Sprint(zzWrittenGlobals) + ", sync.Once, sync.Pool Get/Put, sync.Mutex — is executed and each call must return exactly (the whole header, both accessors, bytes, errors, decoded message and options) what it returns alone on the uninstrumented package")
-		c.Assume("concurrent part: statement granularity at mentions of written package-level variables; accesses to heap objects only reachable from them and mutation through method calls are not scheduling points, and there is no scheduling point after a call's last package-state access; if the package has no written package-level variable there is exactly one schedule per pair (the calls cannot interact through package state) and the part degenerates to a sequential differential test of the instrumented against the uninstrumented package; headers, Messages, Builders and Parsers are never shared between the two threads")
+		c.Assume("concurrent part: statement granularity at mentions of written package-level variables; accesses to heap objects only reachable from them and mutation through method calls are not scheduling points, and there is no scheduling point after a call's last package-state access; if the package has no written package-level variable the only scheduling choice per pair is which call runs first (the calls cannot interact through package state) and the part degenerates to a sequential differential test of the instrumented against the uninstrumented package; headers, Messages, Builders and Parsers are never shared between the two threads")
 		seq := 0
 		if !c.Quick() {
 			seq = 1
